@@ -396,6 +396,43 @@ def d6_run(carve):
     return _enum_outcome("after every enumerated pipeline the exported dtype of every visible column equals the static dtype (Polars) / has its numeric family (SQLite)", n, bad)
 
 
+def d7_run(carve):
+    """importing a SQL table reads the column types the database has NOW (also when a table of that name was imported
+    from the same engine before and has been replaced since), and they predict the exported types"""
+    import polars as pl
+    import sqlalchemy as sqa
+
+    n, bad = 0, []
+    eng = sqa.create_engine("sqlite://")
+    versions = [
+        pl.DataFrame({"a": [1, 2], "b": [1.5, 2.5], "c": ["x", "y"]}),
+        pl.DataFrame({"a": ["p", "q"], "b": [True, False], "c": [3, 4]}),
+        pl.DataFrame({"a": [1.5, None], "b": [datetime.date(2020, 1, 2), None], "c": [datetime.datetime(2020, 1, 2, 3, 4, 5), None], "d": [1, 2]}),
+    ]
+    with warnings.catch_warnings():
+        warnings.simplefilter("ignore")
+        for k, df in enumerate(versions):
+            df.write_database("t", eng, if_table_exists="replace")
+            t = pdt.Table("t", pdt.SqlAlchemy(eng))
+            n += 1
+            names = [c.name for c in t]
+            if names != df.columns:
+                bad.append(f"version {k}: imported columns {names}, the table has {df.columns}")
+                continue
+            try:
+                out = t >> pdt.export(pdt.Polars())
+            except Exception as ex:  # noqa: BLE001
+                bad.append(f"version {k}: export fails: {type(ex).__name__}: {str(ex)[:140]}")
+                continue
+            for c in t:
+                fs, fw, fg = TU.family(T.without_const(c.dtype())), TU.family(Dtype.from_polars(df.schema[c.name])), TU.family(Dtype.from_polars(out.schema[c.name]))
+                if fs != fw and not (fw == "bool" and fs == "int"):
+                    bad.append(f"version {k}: column {c.name} imported as {c.dtype()} but the table written last holds {df.schema[c.name]}")
+                if fg != fs and not isinstance(Dtype.from_polars(out.schema[c.name]), NullT) and not (fs == "bool" and fg == "int"):
+                    bad.append(f"version {k}: column {c.name} static {c.dtype()}, exported {out.schema[c.name]}")
+    return _enum_outcome("the static types of an imported SQL table are those of the table as it is in the database now (three successive versions under one name, one engine)", n, bad)
+
+
 def obligations(tier):
     fi = H.fn_info
     CE = H.col_expr_mod
@@ -408,6 +445,7 @@ def obligations(tier):
         Obligation("C12/D3/sqlite_ops", "D3", "exported SQLite column family vs static type", d3_sqlite_run, functions=[fi(H.sql_backend.SqlImpl.compile_col_expr), fi(H.sql_backend.SqlImpl.export), fi(H.sqlite_backend.SqliteImpl.fix_fn_types)], bounded="Int64/Float64/String/Bool columns, arity <= 2 (native SQLite execution)", carveouts={"sqlite_dynamic_typing": "int/float family under SQLite's dynamic typing"}),
         Obligation("C12/D6/verbs", "D6", "exported dtypes of all columns after enumerated pipelines (joins with differently typed keys, unions, summarize, windows)", d6_run, functions=[fi(H.polars_backend.compile_ast), fi(H.sql_backend.SqlImpl.export), fi(pdt._internal.pipe.cache.Cache.update)],
                    bounded="pipelines of depth <= 2 over the C01 step alphabet plus 6 joins with Int32/Float64 == Int64 keys; one input table; native execution on Polars and SQLite", carveouts={"sqlite_dynamic_typing": "int/float family under SQLite's dynamic typing", "int_as_float": "Int column through a Float-only operator"}),
+        Obligation("C12/D7/sql_import", "D7", "types of an imported SQL table follow the database, not an earlier import", d7_run, functions=[fi(H.sql_backend.SqlImpl.__init__), fi(H.sql_backend.SqlImpl.pdt_type)], bounded="three table versions under one name on one in-memory SQLite engine"),
         Obligation("C12/D5/reimport", "D5", "re-import / collect reproduce the types", d5_run, functions=[fi(pdt._internal.pipe.verbs.collect), fi(H.polars_backend.PolarsImpl.__init__)], bounded="4 pipelines"),
     ]
 
